@@ -269,17 +269,8 @@ std::unique_ptr<Session> new_ocp(int idx, uint32_t has, uint32_t prov, uint32_t 
     return nullptr;
 }
 
-/// `DLControlProblem` lacks the two projection members that `ControlProblemVTable` requires (it
-/// cannot be type-erased as it is — finding F8, see the compile probes); this adapter adds them and
-/// nothing else, so the rest of the loader can be exercised.
-struct DLControlProblemPlusProj : alpaqa::dl::DLControlProblem {
-    using alpaqa::dl::DLControlProblem::DLControlProblem;
-    void eval_proj_diff_g(crvec, rvec e) const { e.setZero(); }
-    void eval_proj_multipliers(rvec, real_t) const {}
-};
-
 std::unique_ptr<Session> new_dlocp(const std::string &file, const std::string &regfn, c20_params P, std::string &status) {
-    using DLControlProblem = DLControlProblemPlusProj;
+    using alpaqa::dl::DLControlProblem;
     auto s      = std::make_unique<Session>();
     s->ocp      = true;
     auto params = std::make_shared<c20_params>(P);
@@ -310,10 +301,12 @@ std::unique_ptr<Session> new_dlocp(const std::string &file, const std::string &r
         return nullptr;
     }
     status += warned ? " warned=1" : " warned=0";
-    auto ref = std::make_shared<RefDLO>(RefDLO{rr->functions, rr->instance});
+    auto ref = std::make_shared<RefDLO>(RefDLO{rr->functions, rr->instance, {}, {}});
+    ref->init_boxes();
     s->keep.push_back(ref);
-    // a plug-in that omits eval_h / eval_h_N: every call is tried in a child first (the loader may jump
-    // through the null table member); the reference may be rejected by the vtable constructor (nh > 0)
+    // a plug-in that omits eval_h / eval_h_N: every call is tried in a child first (a loader without
+    // provides_eval_h would jump through the null table member); with nh > 0 the vtable constructor rejects
+    // the loader above and this reference alike
     s->fragile = (P.flags & (C20O_FLAG_NO_H | C20O_FLAG_NO_H_N)) != 0;
     try {
         s->orf = std::make_unique<TEO>(ref.get());
